@@ -32,7 +32,11 @@ func Generate(seed uint64, n int, tier, corpusDir string, shard int, out *kit.Ou
 		if i%3 == 2 {
 			backend = "bbolt"
 		}
-		c, err := runSeq(c06.GenHistory(r.Fork(), backend, alphabets))
+		al := alphabets
+		if i%8 == 5 {
+			al = longAlphabets
+		}
+		c, err := runSeq(c06.GenHistory(r.Fork(), backend, al))
 		if err != nil {
 			return err
 		}
